@@ -28,7 +28,8 @@ def strategy(tier):
 
     mix = ["struct", "struct", "struct", "trace_out", "trace_out", "op", "comp", "kraus", "measure", "resize"]
     return st.one_of(S.program_case(mix, max_steps=5), S.program_case(mix, max_steps=5), S.program_case(mix, max_steps=5),
-                     S.lifecycle_case(tail_kinds=("struct", "trace_out", "resize", "op"), max_tail=2))
+                     S.lifecycle_case(tail_kinds=("struct", "trace_out", "resize", "op"), max_tail=2),
+                     S.survivor_case(touches=("resize", "fockop", "trace_out", "reorder", "measure"), max_touch=2, finals=("trace_out", "reorder")))
 
 
 def run_case(case):
